@@ -53,9 +53,10 @@ NATURAL_TXN = [
 ]
 LAZY_VALUE = ['(r.item for r in orders if r.amount == txn.amount)', '(r.nosuch for r in orders)', '(r.item + 1 for r in orders)',
               '(x for x in amount)']
-NATURAL_VALUE = ['amount + "x"', 'split(description, " ", 99.5)', 'description + 1', 'field.nosuch', 'uppercase()', 'extract("(")',
+NATURAL_VALUE = ['amount[0]', 'orders["a"]', 'month[0]', 'orders[0].amount[0]', '-description', '1 if amount > "x" else 2', 'description[99]',
+                 'amount + "x"', 'split(description, " ", 99.5)', 'description + 1', 'field.nosuch', 'uppercase()', 'extract("(")',
                  'regex_replace(description, "(", "")', 'next(r.item for r in orders if r.amount < 0)', 'orders[9].item', 'trim(1, 2)']
-NATURAL_VIEW = ['total > "x"', 'category + 1 > 2', 'sum(payments) / "2" > 1', 'nosuch > 1', 'stddev(5) > 1', 'by("nosuchfield")',
+NATURAL_VIEW = ['total[0]', 'tags["a"]', '-category', '1 if total > "x" else 0', 'not tags + 1', 'nosuch', 'total > "x"', 'category + 1 > 2', 'sum(payments) / "2" > 1', 'nosuch > 1', 'stddev(5) > 1', 'by("nosuchfield")',
                 'months > "3"', '"fun" in total', 'tags + 1', 'sum(5) > 1', 'max(by("month")) > "1"', 'avg("x") > 1', 'cv > "0.3"',
                 'count(3) > 1', 'total > 100 and tags + 1', 'round(category) > 1', 'abs(merchant) > 1', 'period(5) > 1', 'min_val("a", 1) > 0']
 # the same expressions grouped by what the evaluation raises underneath: handlers that look at the exception object
@@ -73,6 +74,11 @@ BY_CLASS = {
               'split(description, " ", "x") == "a"', 'exists(field.a, field.b)', 'len(1, 2) > 0'],
     'unknown-name': ['nosuchvar > 1', 'field.nosuch == "x"', 'txn.nosuch == 1', 'nosuchfn(1)', 'orders[0].nosuch == 1'],
     'bad-date': ['date >= "2025-13-45"', 'date == "yesterday"'],
+    # the failure is raised by the *outermost* node of the expression, one per node kind the language has (an evaluator that
+    # treats some node kinds as "cannot fail" and dispatches them outside its conversion is found by these only)
+    'root-node': ['amount[0]', 'description["x"]', 'orders["a"]', 'date[0]', 'month[0]', 'orders[0].amount[0]', 'txn.amount[0]',
+                  'description[1.5]', 'orders[amount]', 'amount.real', '1 if amount[0] else 2', '-description',
+                  'not description + 1', 'nosuchvar', '[r.nosuch for r in orders]', 'orders[0].item[9]', 'description[99]'],
     'ZeroDivision-like': ['amount / "2" > 1', 'sum(amount) > 1', 'round(description) > 1'],
 }
 SITES_RULES = ['match', 'let', 'variable', 'field', 'tag', 'transform']
